@@ -338,6 +338,10 @@ class Model:
         self.op_rmexp(pred, e)
         pred.trig.add('eol_during_unwinding')
 
+    def op_rmobjx(self, pred, o):
+        self.op_rmobj(pred, o)
+        pred.trig.add('death_during_unwinding')
+
     def op_rmobj(self, pred, o):
         ob = self.objs.pop(o)
         if ob.kind in ('W', 'P'):
